@@ -79,6 +79,11 @@ def gen_scenario(r, keys):
         c = r.weighted([("client1", 6), ("client2", 3), ("nobody", 1), ("", 1)])
         ps = paths()
         ops.append("list %s %s" % (hs(c), ",".join(hs(p) for p in ps) if ps else "-"))
+        # an earlier listing once more (whatever a listing left behind must not change what the same listing shows later,
+        # in particular after accounts were created in between)
+        earlier = [o for o in ops[:-1] if o.startswith("list ")]
+        if earlier and r.chance(0.35):
+            ops.append(r.choice(earlier))
         if r.chance(0.2):
             # other request types in between must not disturb what later listings show
             ops.append("%s %s %s" % (r.choice(["lockwallet", "lockwallet", "unlockwallet"]), hx(r.choice(["client1", "client2"])), hx(r.choice(wallets + ["Nope"]))))
